@@ -108,7 +108,9 @@ PROPS["C11"] = dict(
     rule="quadratics with per-coordinate (from, ctrl, div) chosen so that extremum parameters are dyadic; cubics whose "
          "derivative has chosen roots m/8 (incl. roots outside [0,1], double roots, linear derivative); plus random f64 "
          "curves in general position checked by dense sampling (box contains / tight / fast contains / monotone pieces); "
-         "non-trivial = control points not all equal",
+         "elliptic arcs (centre at / away from the origin, radii 1..8, sweeps of either sign incl. full turns, rotations) "
+         "and line segments checked by dense sampling (exact box contains the arc and is touched on four sides, fast box "
+         "contains it, extremum parameters in [0,1] and stationary); non-trivial = control points not all equal",
     trusted_base=["Model/Bezier.v extremum/bounding-range functions follow quadratic_bezier.rs / cubic_bezier.rs"],
     assumptions=["sqrt oracle correct at the discriminant (cubic theorems)", "rational arithmetic"],
 )
